@@ -260,6 +260,12 @@ func (d *OrderedDaemon) Start() {
 
 	d.lock.Lock()
 	defer d.lock.Unlock()
+
+	// re-check under the lock: shutdown reads the running flag under the read lock after it has set
+	// the stopped flag, so it either sees this start completed or this start sees the stopped flag.
+	if d.IsStopped() {
+		return
+	}
 	verifYield("Start.locked")
 
 	if !d.IsRunning() {
@@ -309,7 +315,13 @@ func (d *OrderedDaemon) shutdown() {
 
 	d.stopped.Store(true)
 	d.stoppedCtxCancel()
-	if !d.IsRunning() {
+
+	// read the running flag under the lock, so that a concurrent Start that has passed
+	// its stopped check has started all workers before we decide whether to stop them.
+	d.lock.RLock()
+	running := d.IsRunning()
+	d.lock.RUnlock()
+	if !running {
 		return
 	}
 
